@@ -90,6 +90,16 @@ CYCLE_SEEDS = {
                 '(assert (=> p q))\n(assert (xor p q))\n(assert (= p false))\n',
     'dt': '(declare-datatype P ((mk (fst Int))))\n(declare-const d P)\n'
           '(assert (= (fst (mk 1)) (fst d)))\n',
+    # qualified identifiers: a default constant that is not a leaf
+    'set_empty': '(declare-const s (Set Int))\n'
+                 '(assert (= s (as emptyset (Set Int))))\n',
+    'as_nil': '(declare-datatype L ((nil) (cons (hd Int) (tl L))))\n'
+              '(declare-const l L)\n'
+              '(assert (= l (cons 1 (as nil L))))\n',
+    'array_const': '(declare-const m (Array Int Int))\n'
+                   '(assert (= (select (store m 0 1) 0) (select m 1)))\n',
+    'fp_round': '(declare-const f (_ FloatingPoint 5 11))\n'
+                '(assert (fp.eq (fp.add RNE f f) (fp.neg f)))\n',
     'sort_children': '(declare-const x Int)\n'
                      '(assert (= (+ (* x x) x) (+ x (* x x))))\n',
 }
@@ -409,6 +419,18 @@ def main():
         for text, spec, opts, meta in cfgs:
             if r.random() < 0.5:
                 spec.update(corpus.gen_pred(r, text, 'hash'))
+        # parallel ddmin: two removable subsets of one granularity level, the
+        # check of the first one slow, so that the second is taken first and
+        # the first one's success arrives late
+        par = ('(assert k0)\n(assert p)\n(assert k2)\n(assert q)\n'
+               '(assert k4)\n(assert k5)\n')
+        for j in (2, 3):
+            cfgs.append((par, {'mode': 'contains',
+                               'markers': ['k0', 'k2', 'k4', 'k5'],
+                               'slow_without': {'token': 'p', 'ms': 1500}},
+                         ['--strategy', 'ddmin', '-j', str(j), '--disable-all',
+                          '--erase-node'],
+                         {'strategy': 'ddmin', 'jobs': j, 'n': 'late-%d' % j}))
         items = S.execute(cfgs, label='c03', timeout=runs.time_limit(120))
         names = {str(m): type(m).__name__ for m in P.all_mutators(mods)}
         import tracecheck
@@ -424,6 +446,18 @@ def main():
             for it, v in zip(its, vs):
                 if v[0] == 'invariant' and 'NoRevisit' in v[1]:
                     flagged.add(id(it))
+        for it, v in zip(ds, dv):
+            # the restart index of a parallel round grows strictly
+            if v[0] == 'reject' and v[3] == \
+                    'restart-index-is-not-the-adopted-subset-plus-one':
+                ev = it.ddmin['events'][v[1] - 1]
+                rep.violation(
+                    'trace-ddmin:' + v[3],
+                    f'ddmin trace rejected by TLC at event {v[1]}: the '
+                    f'generator of a parallel round restarts at index '
+                    f'{ev.get("index")}, not right after the adopted subset '
+                    f'(nothing bounds the number of restarts); options '
+                    f'{it.opts}', S.replay_obj(it))
         for it in items:
             rep.count()
             chain = S.adoption_chain(it, names)
